@@ -1,16 +1,37 @@
 """Translator (tie T) for C01/C02: regenerates lean/TinyVerif/Gen/SyncSites.lean from the *current*
-/repo sources — the ordered list of atomic / futex call sites of every function in
-tiny-std/src/sync/mutex.rs, tiny-std/src/sync/rwlock.rs, tiny-std/src/sync.rs (`futex_wait_fast`) and
-rusl/src/futex.rs, with method, literal operands and memory orderings, plus the named constants
-the protocols use.  The Lean side (`Props/C01.lean`, `Props/C02.lean`) checks by `decide` that the table
-has the shape the hand-written model assumes and that every ordering is at least what the proofs need.
-Stdlib only; a construct it cannot parse is emitted as an `unparsed` site, which fails the Lean check."""
+/repo sources — every atomic / futex call site of tiny-std/src/sync/mutex.rs, tiny-std/src/sync/rwlock.rs,
+tiny-std/src/sync.rs (`futex_wait_fast`) and rusl/src/futex.rs.
+
+The extraction is *semantic*, not positional:
+ * named constants (`const NAME: T = EXPR;`, also `Ordering` aliases) are resolved, operands that are bound
+   once by a call-free `let` in the same function are substituted, constant sub-expressions are evaluated;
+   `Ordering::Acquire`, `atomic::Ordering::Acquire`, `Acquire` are the same ordering;
+ * every read-modify-write of a lock word gets a *role* from what it does to the word (not from where it
+   stands): `acquire` = may take the lock (mutex: writes a non-zero state; rwlock: may raise the count field
+   or set it to WRITE_LOCKED — decided by evaluating the new-value expression on sample states), `release` =
+   gives it up (mutex: writes 0; rwlock: `fetch_sub` on `state`), `keep` = provably leaves the holder count
+   alone or zero (waiting-bit bookkeeping), `both` = cannot tell (must then be acquire *and* release);
+ * an ordering argument that is not a literal/alias is emitted as `.unknown`: the Lean side then declares the
+   static table "not understood" and relies on the orderings observed at run time (Gen/MutexObs.lean,
+   Gen/RwObs.lean, written by checks/c01.py / c02.py from the traces of the running code).
+The Lean side (`Props/C01.lean`, `Props/C02.lean`) states position-independent obligations over this table
+(every acquiring RMW ⊇ Acquire, every releasing RMW ⊇ Release, no plain store to a lock word, same futex key
+kind for wait and wake).  The per-function *shape* is reported (`shape_report`) but is informational: the
+operation sequence is pinned by the trace correspondence (every trace of the real code is a run of `step`).
+Stdlib only."""
+import itertools
 import os
 import re
 
 from . import common as C
 
 ORD = {"Relaxed": "relaxed", "Acquire": "acquire", "Release": "release", "AcqRel": "acqrel", "SeqCst": "seqcst"}
+# how the scheduler shim prints an ordering in a trace event
+TRACE_ORD = {"relaxed": "rlx", "acquire": "acq", "release": "rel", "acqrel": "acqrel", "seqcst": "sc", "unknown": "?"}
+TRACE_OP = {"compare_exchange": "cas", "compare_exchange_weak": "casw", "swap": "swap", "fetch_add": "fadd",
+            "fetch_sub": "fsub", "load": "load", "store": "store"}
+
+MASK30 = (1 << 30) - 1
 
 
 def strip_comments(src):
@@ -80,6 +101,7 @@ def norm(a):
 
 
 def sites_of(fname, body):
+    """legacy purely syntactic site list (used by checks/thread_extract.py); C01/C02 use `sem_sites`"""
     out = []
     for m in SITE_RE.finditer(body):
         op = m.group(1) or m.group(2)
@@ -101,20 +123,54 @@ def sites_of(fname, body):
     return out
 
 
+# ---------------------------------------------------------------- constants / expressions
+
 def consts_of(src):
+    """numeric constants `const NAME: <int type> = EXPR;` (unevaluated text)"""
     out = {}
     src = strip_comments(src)
-    for m in re.finditer(r"const\s+([A-Z_]+)\s*:\s*u32\s*=\s*([^;]+);", src):
+    cut = src.find("#[cfg(test)]")
+    if cut >= 0:
+        src = src[:cut]
+    for m in re.finditer(r"\bconst\s+([A-Z][A-Z_0-9]*)\s*:\s*(?:u8|u16|u32|u64|usize|i8|i16|i32|i64|isize)\s*=\s*([^;]+);", src):
         out[m.group(1)] = norm(m.group(2))
     return out
 
 
+def ord_consts_of(src):
+    """ordering aliases `const NAME: Ordering = Ordering::X;`"""
+    out = {}
+    for m in re.finditer(r"\bconst\s+([A-Z][A-Z_0-9]*)\s*:\s*(?:[A-Za-z_:]*::)?Ordering\s*=\s*([^;]+);", strip_comments(src)):
+        o = parse_ord(m.group(2), {})
+        if o:
+            out[m.group(1)] = o
+    return out
+
+
+def parse_ord(tok, ord_consts):
+    t = norm(tok)
+    m = re.fullmatch(r"(?:(?:(?:core|std)::)?(?:sync::)?atomic::)?(?:Ordering::)?([A-Za-z]+)", t)
+    if m and m.group(1) in ORD:
+        return ORD[m.group(1)]
+    return ord_consts.get(t)
+
+
+def _py_expr(e):
+    e = e.replace("u32::MAX", str(2**32 - 1)).replace("i32::MAX", str(2**31 - 1))
+    e = re.sub(r"(\d)_(?=\d)", r"\1", e)
+    e = re.sub(r"\b(\d+|0x[0-9a-fA-F]+)(?:u8|u16|u32|u64|usize|i8|i16|i32|i64|isize)\b", r"\1", e)
+    e = re.sub(r"\bas(?:u32|usize|u64|i32)\b", "", e)
+    e = re.sub(r"!(?!=)", "~", e)
+    return e
+
+
 def eval_const(expr, env):
-    e = expr
+    """value of a constant expression over `env` (u32 arithmetic), or None"""
+    e = norm(expr)
     for k in sorted(env, key=len, reverse=True):
-        e = re.sub(r"\b%s\b" % k, str(env[k]), e)
-    e = e.replace("u32::MAX", str(2**32 - 1))
-    if not re.fullmatch(r"[0-9x()\s<>|&+\-*~]+", e):
+        e = re.sub(r"\b%s\b" % re.escape(k), "(%d)" % env[k], e)
+    e = _py_expr(e)
+    if not re.fullmatch(r"[0-9a-fA-Fx()<>|&^+\-*~]+", e):
         return None
     try:
         return eval(e, {"__builtins__": {}}) & 0xFFFFFFFF
@@ -122,8 +178,264 @@ def eval_const(expr, env):
         return None
 
 
+def resolve_consts(raw):
+    env = {}
+    for _ in range(6):
+        for k, v in raw.items():
+            val = eval_const(v, env)
+            if val is not None:
+                env[k] = val
+    return env
+
+
+LET_RE = re.compile(r"\blet\s+(?:mut\s+)?([a-z_][a-z_0-9]*)\s*(?::\s*[A-Za-z0-9_:<>]+\s*)?=\s*([^;{}]+);")
+
+
+def simple_lets(body):
+    """locals bound exactly once, never re-assigned, by an expression without any call: safe to substitute"""
+    flat = re.sub(r"\s+", " ", body)
+    found = {}
+    for m in LET_RE.finditer(flat):
+        found.setdefault(m.group(1), []).append(norm(m.group(2)))
+    out = {}
+    for name, rhss in found.items():
+        if len(rhss) != 1:
+            continue
+        rhs = rhss[0]
+        if re.search(r"[A-Za-z_0-9]\(|\.[a-z_]|\?|\bmatch\b|\bif\b|\bloop\b|\bSome\b|\|\|", rhs):
+            continue
+        if re.search(r"(?<!let )(?<!mut )\b%s\s*(?:[-+|&^*/]|<<|>>)?=(?!=)" % re.escape(name), flat):
+            continue
+        out[name] = rhs
+    return out
+
+
+IDENT_RE = re.compile(r"(?<![\w.:])([a-z_][a-z_0-9]*)\b(?!\s*[(:!])")
+
+
+def resolve_operand(expr, env, lets):
+    """canonical text of an operand: lets substituted, constants replaced by their values, constant
+    expressions evaluated"""
+    e = norm(expr)
+    for _ in range(3):
+        v = eval_const(e, env)
+        if v is not None:
+            return str(v)
+        changed = False
+
+        def sub(m):
+            nonlocal changed
+            n = m.group(1)
+            if n in lets and n != e:
+                changed = True
+                r = lets[n]
+                return "(%s)" % r if re.search(r"[|&^+\-*<>]", r) else r
+            if n in lets:
+                changed = True
+                return lets[n]
+            return n
+        e = IDENT_RE.sub(sub, e)
+        if not changed:
+            break
+    v = eval_const(e, env)
+    if v is not None:
+        return str(v)
+    for k in sorted(env, key=len, reverse=True):
+        e = re.sub(r"(?<![\w.:])%s\b" % re.escape(k), str(env[k]), e)
+    return e
+
+
+def free_idents(e):
+    return sorted(set(IDENT_RE.findall(e)) - {"as", "u32", "usize"})
+
+
+def eval_with(e, assign):
+    t = e
+    for k in sorted(assign, key=len, reverse=True):
+        t = re.sub(r"(?<![\w.:])%s\b" % re.escape(k), "(%d)" % assign[k], t)
+    t = _py_expr(t)
+    if not re.fullmatch(r"[0-9a-fA-Fx()<>|&^+\-*~]+", t):
+        return None
+    try:
+        return eval(t, {"__builtins__": {}}) & 0xFFFFFFFF
+    except Exception:
+        return None
+
+
+RW_SAMPLES = [0, 1, 2, 7, MASK30 - 1, MASK30, 1 << 30, 1 << 31, 3 << 30, 1 | (1 << 30), 5 | (1 << 31),
+              MASK30 | (1 << 31), MASK30 | (1 << 30), 3 | (3 << 30)]
+
+
+def rw_cas_role(cur, new):
+    """role of `compare_exchange*(cur, new)` on the rwlock state word: `keep` iff for every sampled value of the
+    free variables the count field (low 30 bits) of the new value equals that of the expected value or is zero
+    (then the exchange cannot create a guard); otherwise `acquire` (safe direction)"""
+    ids = sorted(set(free_idents(cur)) | set(free_idents(new)))
+    if len(ids) > 3:
+        return "acquire"
+    for combo in itertools.product(RW_SAMPLES, repeat=len(ids)):
+        a = dict(zip(ids, combo))
+        c, n = eval_with(cur, a), eval_with(new, a)
+        if c is None or n is None:
+            return "acquire"
+        if not ((n & MASK30) == (c & MASK30) or (n & MASK30) == 0):
+            return "acquire"
+    return "keep"
+
+
+def const_role(new):
+    """mutex lock word: 0 = unlocked"""
+    if re.fullmatch(r"\d+", new):
+        return "release" if int(new) == 0 else "acquire"
+    return "both"
+
+
+ARITY = {"load": (0, 1), "store": (1, 1), "swap": (1, 1), "fetch_add": (1, 1), "fetch_sub": (1, 1),
+         "compare_exchange": (2, 2), "compare_exchange_weak": (2, 2)}
+RMW = {"swap", "fetch_add", "fetch_sub", "compare_exchange", "compare_exchange_weak", "fetch_update"}
+
+
+def sem_sites(mod, fname, body, env, ord_consts):
+    lets = simple_lets(body)
+    out = []
+    for m in SITE_RE.finditer(body):
+        op = m.group(1) or m.group(2)
+        args, _ = call_args(body, m.end() - 1)
+        parts = split_args(args)
+        recv = body[max(0, m.start() - 160):m.start()]
+        rm = re.search(r"self\s*\.\s*([a-z_]+)\s*$", recv)
+        rl = re.search(r"(?<![\w.])([a-z_][a-z_0-9]*)\s*$", recv)
+        if m.group(2):
+            am = re.match(r"&?\s*self\s*\.\s*([a-z_]+)", parts[0]) if parts else None
+            loc = am.group(1) if am else "arg"
+            vals = [resolve_operand(p, env, lets) for p in parts[1:]]
+            ords = []
+            role = "wait" if "wait" in op else "wake"
+        else:
+            loc = rm.group(1) if rm else (rl.group(1) if rl else "?")
+            if op == "fetch_update":
+                nv, no = 0, 2
+                oparts, vparts = parts[:2], []
+            else:
+                nv, no = ARITY[op]
+                vparts, oparts = parts[:nv], parts[nv:nv + no]
+            vals = [resolve_operand(p, env, lets) for p in vparts]
+            ords = [(parse_ord(p, ord_consts) or "unknown") for p in oparts]
+            while len(ords) < no:
+                ords.append("unknown")
+            role = "load" if op == "load" else "store" if op == "store" else "both"
+            if mod == "mutex" and op in RMW:
+                if op == "swap" and vals:
+                    role = const_role(vals[0])
+                elif op.startswith("compare_exchange") and len(vals) == 2:
+                    role = const_role(vals[1])
+            elif mod == "rwlock" and op in RMW:
+                if loc != "state":
+                    role = "notify"
+                elif op == "fetch_sub":
+                    role = "release"
+                elif op in ("fetch_add", "fetch_update"):
+                    role = "acquire"
+                elif op.startswith("compare_exchange") and len(vals) == 2:
+                    role = rw_cas_role(vals[0], vals[1])
+            elif mod not in ("mutex", "rwlock") and op in RMW:
+                role = "other"
+        out.append({"fn": fname, "op": op, "loc": loc, "vals": vals, "ords": ords, "role": role,
+                    "raw": norm(args)[:160]})
+    return out
+
+
+# ---------------------------------------------------------------- spin budget, futex key kind (static)
+
+def spin_budget(src, env):
+    """the spin budget of the function that polls with `spin_loop()`: `let mut n = B; … n -= 1` or
+    `for _ in 0..B { … }`; None when the loop is written some other way (then the traces decide)"""
+    for name, body in functions(src):
+        if "spin_loop" not in body:
+            continue
+        for m in re.finditer(r"let\s+mut\s+([a-z_][a-z_0-9]*)\s*(?::\s*\w+\s*)?=\s*([^;]+);", body):
+            if re.search(r"\b%s\s*-=\s*1\b" % re.escape(m.group(1)), body):
+                v = eval_const(m.group(2), env)
+                if v is not None:
+                    return v
+        m = re.search(r"for\s+\w+\s+in\s+0\s*\.\.\s*([^{=]+)\{", body)
+        if m:
+            v = eval_const(m.group(1), env)
+            if v is not None:
+                return v
+    return None
+
+
+def futex_key_kinds(fsrc):
+    """(wait_private, wake_private, understood).  FUTEX_WAIT = 0, so `FUTEX_WAIT & flags` is the plain (shared)
+    operation whatever the flags; `FUTEX_WAIT | flags` carries the caller's PRIVATE flag"""
+    bodies = dict(functions(fsrc))
+    wb, kb = bodies.get("futex_wait"), bodies.get("futex_wake")
+    understood = True
+
+    def kind(body, name):
+        nonlocal understood
+        if body is None or name not in body:
+            understood = False
+            return False
+        if re.search(r"\bFUTEX_PRIVATE_FLAG\b|\b%s_PRIVATE\b" % name, body):
+            return True
+        m = re.search(r"\b%s\s*([&|])\s*[A-Za-z_(]" % name, body)
+        if m:
+            return m.group(1) == "|"
+        return False
+    return kind(wb, "FUTEX_WAIT"), kind(kb, "FUTEX_WAKE"), understood
+
+
+# ---------------------------------------------------------------- expected (as-modelled) shapes, informational
+
+EXPECTED_SHAPE = {
+    "mutex": [("try_lock", "compare_exchange", "futex", ["0", "1"]), ("lock", "compare_exchange", "futex", ["0", "1"]),
+              ("lock_contended", "compare_exchange", "futex", ["0", "1"]), ("lock_contended", "swap", "futex", ["2"]),
+              ("lock_contended", "futex_wait_fast", "futex", ["2"]), ("spin", "load", "futex", []),
+              ("unlock", "swap", "futex", ["0"]), ("wake", "futex_wake", "futex", ["1"])],
+    "rwlock": [("try_read", "fetch_update", "state", []), ("read", "load", "state", []),
+               ("read", "compare_exchange_weak", "state", ["state", "state+1"]), ("read_unlock", "fetch_sub", "state", ["1"]),
+               ("read_contended", "compare_exchange_weak", "state", ["state", "state+1"]),
+               ("read_contended", "compare_exchange", "state", ["state", "state|1073741824"]),
+               ("read_contended", "futex_wait_fast", "state", ["state|1073741824"]),
+               ("try_write", "fetch_update", "state", []), ("write", "compare_exchange_weak", "state", ["0", "1073741823"]),
+               ("write_unlock", "fetch_sub", "state", ["1073741823"]),
+               ("write_contended", "compare_exchange_weak", "state", ["state", "state|1073741823|other_writers_waiting"]),
+               ("write_contended", "compare_exchange", "state", ["state", "state|2147483648"]),
+               ("write_contended", "load", "writer_notify", []), ("write_contended", "load", "state", []),
+               ("write_contended", "futex_wait_fast", "writer_notify", ["seq"]),
+               ("wake_writer_or_readers", "compare_exchange", "state", ["state", "0"]),
+               ("wake_writer_or_readers", "compare_exchange", "state", ["state", "1073741824"]),
+               ("wake_writer_or_readers", "compare_exchange", "state", ["state", "0"]),
+               ("wake_writer_or_readers", "futex_wake", "state", ["2147483647"]),
+               ("wake_writer", "fetch_add", "writer_notify", ["1"]), ("wake_writer", "futex_wake", "writer_notify", ["1"]),
+               ("spin_until", "load", "state", [])],
+    "sync": [("futex_wait_fast", "load", "futex", []),
+             ("futex_wait_fast", "futex_wait", "arg", ["expect", "FutexFlags::PRIVATE", "None"])],
+}
+
+
+def shape_report(tables):
+    """does the static table still have exactly the per-function shape the model was written from?"""
+    rep = {}
+    for mod, exp in EXPECTED_SHAPE.items():
+        got = [(s["fn"], s["op"], s["loc"], s["vals"]) for s in tables[mod]]
+        rep[mod] = "as-modelled" if got == [(a, b, c, list(d)) for a, b, c, d in exp] else \
+            "differs from the shape the model was written from (informational; the trace correspondence pins the operation sequence)"
+    return rep
+
+
 def lean_str(s):
     return '"' + s.replace("\\", "\\\\").replace('"', '\\"') + '"'
+
+
+def write_if_changed(path, text):
+    os.makedirs(os.path.dirname(path), exist_ok=True)
+    if not os.path.exists(path) or open(path).read() != text:
+        tmp = path + ".tmp%d" % os.getpid()
+        open(tmp, "w").write(text)
+        os.replace(tmp, path)
 
 
 def generate(repo=None):
@@ -134,74 +446,157 @@ def generate(repo=None):
         ("sync", "tiny-std/src/sync.rs"),
         ("futex", "rusl/src/futex.rs"),
     ]
-    tables = {}
-    consts = {}
+    tables, envs, srcs = {}, {}, {}
     for mod, rel in files:
         src = open(os.path.join(repo, rel)).read()
+        srcs[mod] = src
+        env = resolve_consts(consts_of(src))
+        envs[mod] = env
+        oc = ord_consts_of(src)
         sites = []
         for name, body in functions(src):
-            sites += sites_of(name, body)
+            sites += sem_sites(mod, name, body, env, oc)
         tables[mod] = sites
-        if mod == "rwlock":
-            raw = consts_of(src)
-            env = {}
-            for _ in range(4):
-                for k, v in raw.items():
-                    val = eval_const(v, env)
-                    if val is not None:
-                        env[k] = val
-            consts = env
-    # spin count and literal comparisons in mutex.rs that steer control flow
-    msrc = strip_comments(open(os.path.join(repo, files[0][1])).read())
-    spin = re.search(r"let\s+mut\s+spin\s*=\s*(\d+)", msrc)
-    extra = {
-        "mutex_spin": int(spin.group(1)) if spin else -1,
-        "mutex_unlock_wake_if": (re.search(r"swap\(\s*0\s*,\s*\w+\s*\)\s*==\s*(\d+)", msrc) or [None, "-1"])[1],
-        "mutex_loop_skip_if_state": (re.search(r"state\s*!=\s*(\d+)\s*&&", msrc) or [None, "-1"])[1],
-        "mutex_swap_acquired_if": (re.search(r"swap\(\s*2\s*,\s*\w+\s*\)\s*==\s*(\d+)", msrc) or [None, "-1"])[1],
-        "mutex_spin_stop_unless": (re.search(r"state\s*!=\s*(\d+)\s*\|\|\s*spin\s*==\s*0", msrc) or [None, "-1"])[1],
-    }
-    rsrc = strip_comments(open(os.path.join(repo, files[1][1])).read())
-    rspin = re.search(r"let\s+mut\s+spin\s*=\s*(\d+)", rsrc)
-    extra["rwlock_spin"] = int(rspin.group(1)) if rspin else -1
-    fsrc = strip_comments(open(os.path.join(repo, files[3][1])).read())
-    wait_op = re.search(r"(FUTEX_WAIT\s*[&|]\s*flags\.bits\(\)\.0|FUTEX_WAIT)\s*,", fsrc)
-    wake_op = re.search(r"(FUTEX_WAKE\s*[&|]\s*[^,]+|FUTEX_WAKE)\s*,", fsrc)
-    # key kind: `FUTEX_WAIT & flags` = 0 & x = plain FUTEX_WAIT (shared); `|` with PRIVATE = private
-    wait_private = bool(wait_op and "|" in wait_op.group(1))
-    wake_private = bool(wake_op and "|" in wake_op.group(1))
-    lines = ["/- GENERATED by checks/sync_extract.py from /repo (tiny-std/src/sync*.rs, rusl/src/futex.rs). Do not edit. -/",
+    consts = envs["rwlock"]
+    mspin = spin_budget(srcs["mutex"], envs["mutex"])
+    rspin = spin_budget(srcs["rwlock"], envs["rwlock"])
+    extra = {"mutex_spin": -1 if mspin is None else mspin, "rwlock_spin": -1 if rspin is None else rspin}
+    wait_private, wake_private, key_understood = futex_key_kinds(srcs["futex"])
+    lines = ["/- GENERATED by checks/sync_extract.py from /repo (tiny-std/src/sync*.rs, rusl/src/futex.rs). Do not edit.",
+             "   Operands: named constants resolved, single call-free `let`s substituted, constant expressions evaluated.",
+             "   role: what the operation does to its lock word (acquire / release / keep / both / load / store / notify / wait / wake). -/",
              "namespace TinyVerif.Gen.Sync", "",
-             "inductive Ord where | relaxed | acquire | release | acqrel | seqcst", "  deriving Repr, DecidableEq", "",
+             "inductive Ord where | relaxed | acquire | release | acqrel | seqcst | unknown", "  deriving Repr, DecidableEq", "",
              "structure Site where", "  fn : String", "  op : String", "  loc : String", "  vals : List String", "  ords : List Ord",
-             "  deriving Repr, DecidableEq", ""]
+             "  role : String", "  deriving Repr, DecidableEq", ""]
     for mod in ["mutex", "rwlock", "sync", "futex"]:
         lines.append("def %sSites : List Site := [" % mod)
         rows = []
         for s in tables[mod]:
-            rows.append("  ⟨%s, %s, %s, [%s], [%s]⟩" % (lean_str(s["fn"]), lean_str(s["op"]), lean_str(s["loc"]),
-                                                   ", ".join(lean_str(v) for v in s["vals"]),
-                                                   ", ".join(".%s" % o for o in s["ords"])))
+            rows.append("  ⟨%s, %s, %s, [%s], [%s], %s⟩" % (lean_str(s["fn"]), lean_str(s["op"]), lean_str(s["loc"]),
+                                                       ", ".join(lean_str(v) for v in s["vals"]),
+                                                       ", ".join(".%s" % o for o in s["ords"]), lean_str(s["role"])))
         lines.append(",\n".join(rows))
         lines.append("]")
         lines.append("")
-    for k in sorted(consts):
-        lines.append("def c_%s : Nat := %d" % (k, consts[k]))
+    lines.append("/-- every integer constant of rwlock.rs, by name -/")
+    lines.append("def rwConsts : List (String × Nat) := [%s]" % ", ".join("(%s, %d)" % (lean_str(k), consts[k]) for k in sorted(consts)))
+    lines.append("/-- spin budgets as far as the loop form was understood statically (-1: not understood) -/")
     for k in sorted(extra):
         lines.append("def %s : Int := %s" % (k, extra[k]))
     lines.append("def futexWaitPrivate : Bool := %s" % ("true" if wait_private else "false"))
     lines.append("def futexWakePrivate : Bool := %s" % ("true" if wake_private else "false"))
+    lines.append("def futexKeyUnderstood : Bool := %s" % ("true" if key_understood else "false"))
     lines += ["", "end TinyVerif.Gen.Sync", ""]
-    text = "\n".join(lines)
-    path = os.path.join(C.LEAN, "TinyVerif", "Gen", "SyncSites.lean")
-    os.makedirs(os.path.dirname(path), exist_ok=True)
-    if not os.path.exists(path) or open(path).read() != text:
-        open(path, "w").write(text)
-    return {"tables": tables, "consts": consts, "extra": extra, "wait_private": wait_private, "wake_private": wake_private}
+    write_if_changed(os.path.join(C.LEAN, "TinyVerif", "Gen", "SyncSites.lean"), "\n".join(lines))
+    return {"tables": tables, "consts": consts, "extra": extra, "wait_private": wait_private, "wake_private": wake_private,
+            "key_understood": key_understood, "shape": shape_report(tables)}
+
+
+# ---------------------------------------------------------------- run-time observation (written by c01.py / c02.py)
+
+LEAN_ORD = {"rlx": "relaxed", "acq": "acquire", "rel": "release", "acqrel": "acqrel", "sc": "seqcst"}
+
+
+def write_observed(name, rows, spin, wait_private, wake_private):
+    """Gen/<name>.lean: what the running code did.  rows = set of (trace-op, role, ordering-as-traced);
+    role `acquire` = the RMW that returned the guard (the thread's last atomic operation before the harness saw
+    the guard), `release` = the first RMW of the guard's drop."""
+    lines = ["/- GENERATED by checks/%s from the traces of the real code running under the scheduler shim" % ("c01.py" if name == "MutexObs" else "c02.py"),
+             "   (harness/c01) and from the futex operation words the real rusl::futex passes to the kernel. Do not edit. -/",
+             "import TinyVerif.Gen.SyncSites",
+             "namespace TinyVerif.Gen.%s" % name, "open TinyVerif.Gen.Sync", "",
+             "/-- (operation, role, success ordering) classes observed over all explored schedules -/",
+             "def observed : List (String × String × Ord) := ["]
+    rr = []
+    for op, role, o in sorted(rows):
+        rr.append("  (%s, %s, .%s)" % (lean_str(op), lean_str(role), LEAN_ORD.get(o, "unknown")))
+    lines.append(",\n".join(rr))
+    lines.append("]")
+    lines.append("/-- spin budget the traces were accepted with -/")
+    lines.append("def spinBudget : Nat := %d" % spin)
+    lines.append("/-- FUTEX_PRIVATE_FLAG in the operation word the real futex_wait / futex_wake issued -/")
+    lines.append("def futexWaitPrivate : Bool := %s" % ("true" if wait_private else "false"))
+    lines.append("def futexWakePrivate : Bool := %s" % ("true" if wake_private else "false"))
+    lines += ["", "end TinyVerif.Gen.%s" % name, ""]
+    write_if_changed(os.path.join(C.LEAN, "TinyVerif", "Gen", name + ".lean"), "\n".join(lines))
+
+
+def roles_observed(traces):
+    """{(op, role, ordering)} from traces: role of an RMW event by what happened around it"""
+    rows = set()
+    for t in traces:
+        last = {}      # tid -> last RMW event (op, ordering)
+        pend = set()   # tids whose next RMW is the releasing one
+        for ev in t.split(" ; "):
+            w = ev.split()
+            if len(w) != 5 or w[0] == "-":
+                continue
+            tid, op = w[0], w[1]
+            kind = re.sub(r"\d+$", "", op)
+            if kind in ("cas", "casw", "swap", "fadd", "fsub", "store"):
+                o = w[2].split("/")[0]
+                ok = not (kind in ("cas", "casw") and not w[4].startswith("ok"))
+                if tid in pend:
+                    pend.discard(tid)
+                    rows.add((kind, "release", o))
+                    last.pop(tid, None)
+                elif ok:
+                    last[tid] = (kind, o)
+            elif op == "acq":
+                if tid in last:
+                    rows.add((last[tid][0], "acquire", last[tid][1]))
+                else:
+                    rows.add(("none", "acquire", "?"))
+                last.pop(tid, None)
+            elif op == "rel":
+                pend.add(tid)
+    return rows
+
+
+def static_vs_observed(sites, lock_locs, obs_by_op):
+    """translator validation: orderings the code passed at run time, per operation kind on the lock word(s),
+    must be among the orderings of the static sites of that kind.  Returns (understood, mismatches, notes)."""
+    stat = {}
+    understood = True
+    for s in sites:
+        if s["loc"] not in lock_locs or s["op"].startswith("futex"):
+            continue
+        li = lock_locs.index(s["loc"])
+        if "unknown" in s["ords"]:
+            understood = False
+        tords = [TRACE_ORD[o] for o in s["ords"]]
+        if s["op"] == "fetch_update":
+            stat.setdefault("casw%d" % li, set()).add("/".join(tords))
+            stat.setdefault("load%d" % li, set()).add(tords[1] if len(tords) > 1 else "?")
+        elif s["op"] in TRACE_OP:
+            stat.setdefault("%s%d" % (TRACE_OP[s["op"]], li), set()).add("/".join(tords))
+    bad, notes = [], []
+    for k, seen in sorted(obs_by_op.items()):
+        if k.startswith("load"):
+            continue  # load orderings are not part of any obligation (a load may observe any value in the model)
+        if k not in stat:
+            # the running code performs an operation of which the extractor found no call site at all: the table
+            # is incomplete, i.e. not understood (the observation then carries the configuration)
+            understood = False
+            notes.append("the running code performs %s (%s) but no such call site was found statically" % (k, ",".join(sorted(seen))))
+    if understood:
+        for k, seen in sorted(obs_by_op.items()):
+            if k.startswith("load"):
+                continue
+            extra = sorted(x for x in seen if x not in stat[k])
+            if extra:
+                bad.append({"op": k, "observed": sorted(seen), "static": sorted(stat[k])})
+    else:
+        notes += ["%s.%s %s(%s): ordering argument is not a literal or alias" % (s["fn"], s["loc"], s["op"], s["raw"])
+                  for s in sites if "unknown" in s["ords"]]
+    return understood, bad, notes
 
 
 if __name__ == "__main__":
     import json
     r = generate()
-    print(json.dumps({k: (len(v) if isinstance(v, list) else v) for k, v in r["tables"].items()}))
-    print(r["consts"], r["extra"], r["wait_private"], r["wake_private"])
+    for mod, t in r["tables"].items():
+        for s in t:
+            print(mod, s["fn"], s["op"], s["loc"], s["vals"], s["ords"], s["role"])
+    print(r["consts"], r["extra"], r["wait_private"], r["wake_private"], r["key_understood"], r["shape"])
